@@ -1,6 +1,7 @@
 mod codes;
 mod edns;
 mod hdr;
+mod hostile;
 mod msg;
 mod name;
 mod nametext;
@@ -23,6 +24,8 @@ fn main() {
         "rdata" => rdata::run(&a),
         "packet" => packet::run(&a),
         "edns" => edns::run(&a),
+        "framing" => hostile::run_framing(&a),
+        "hostile" => hostile::run_hostile(&a),
         t => {
             eprintln!("unknown topic {t}");
             std::process::exit(2);
